@@ -59,7 +59,7 @@ func c10RoundTwoFamilies(e *Emitter, a runArgs, mult int) error {
 		}
 	}
 	for _, sd := range discs {
-		coq, err := c10DiscRun(sd, true)
+		coq, err := c10DiscRun(sd, true, false)
 		if err != nil {
 			return err
 		}
